@@ -7,6 +7,11 @@ GROUPS = [
     dict(name="alignment_propagate", harness=H, entry="r_alignment_propagate", allow_no_body=["*"], unwind=7, replay=RP,
          bounded="<= 4 states under <= 3 phones under <= 2 words, symbolic durations / scores / start frames and stale parent values, every parent shape with non-decreasing parent indices"),
 ]
+NATIVE = [
+    dict(name="e2e_invariants", source="native/e2e_invariants.c", repo_sources="ALL_EXCEPT:", cflags=["-w", "-fsanitize=address"],
+         args={"quick": ["C04"], "thorough": ["C04"]}, exhaustive=False,
+         bound="end-to-end invariants of this property on ~12 real decodes (bundled en-us / fr-fr models; goforward recordings with JSGF grammar, FSG file and forced-alignment text; one call, 2048-sample blocks with partial results, float32; digital silence; white noise) under AddressSanitizer -- a safety net under the contracts, not a proof"),
+]
 ASSUMPTIONS = [
     "alignment_propagate precondition: parent indices are non-decreasing, start at 0 and every parent has a child (what alignment_populate builds; alignment_populate itself is not under contract)",
     "vector_grow_one: item size 40 bytes (sizeof(alignment_entry_t)), block of 8 entries or empty; ckd_realloc is the libc stub",
@@ -15,5 +20,5 @@ HAND_LEMMAS = ["children partition their parent's frames: with contiguous child 
 NOT_COVERED = ["alignment_populate (phones of a word = dictionary pronunciation)", "state_align_search_finish backtrace (contiguity, positive durations)", "agreement of words / boundaries with the first-pass segmentation (decoder_alignment; the stale-aligner reuse of seeded change C04_B is detected by the C08 reset contract instead)", "word score = acoustic part of the first-pass score (cross-pass numeric relation, not contractible)"]
 CLAIM = dict(
     text="vector_grow_one is proved (loop-free): the entry count never exceeds the capacity, the new slot lies inside the (re)allocated block, and the 16-bit limit is reported by NULL with nothing changed. alignment_propagate is checked by CBMC on the real function over every hierarchy of <= 4 states / 3 phones / 2 words with symbolic values, including stale parent values from an earlier pass and single-child parents: a parent's duration and score are the sums over its children and it starts where its first child starts (bounded). The rest of the hierarchy construction is NOT covered.",
-    note="vector capacity proof + bounded propagate check; populate, backtrace and agreement with the first pass not covered; trusted: CBMC 6.11",
-    technique="CBMC function contract (goto-instrument --dfcc) for vector_grow_one; CBMC bounded unwinding with unwinding assertions for alignment_propagate")
+    note="vector capacity proof + bounded propagate check; populate, backtrace and agreement with the first pass not covered; trusted: CBMC 6.11; end-to-end invariants on ~12 real decodes by a bounded native run (native/e2e_invariants.c), never counted as proved",
+    technique="CBMC function contract (goto-instrument --dfcc) for vector_grow_one; CBMC bounded unwinding with unwinding assertions for alignment_propagate; plus a bounded native run of the property's end-to-end invariants on real decodes (safety net, not proof)")
